@@ -193,4 +193,16 @@ CHECKS = {
                      {"path": "pkg/hook/hook.go", "imports": {"golang.org/x/time/rate": "github.com/flant/shell-operator/pkg/zzverif/vrate"}}]}),
         ],
     },
+    "C20": {
+        "level": "model_checking",
+        "engine": "E2",
+        "technique": "exhaustive enumeration of small directory trees on a real file system vs the discovery rule; enumeration of hook layouts x failing --config choice through the real Manager.Init with real processes",
+        "level_text": "Part a: every tree of one entry (path of up to 3 components over directories {sub, lib, .hid, x.d} x 8 file names x 5 permission modes) under hooks directories named hooks / lib / .hooks, every pair from a 50-entry pool and (thorough) every triple from a 30-entry pool is created on tmpfs; RecursiveGetExecutablePaths must return exactly the files the statement's rule selects. Part b: Manager.Init on 9 hook layouts (name collisions across directories, directory/file name prefixes whose walk order differs from lexical order, blanks, case) with real /bin/sh hooks that log each --config call, plus lib/, hidden, non-executable and excluded-extension noise; for the healthy layout and for every choice of one hook whose --config exits 1 or prints an invalid configuration: names = relative paths in lexical order, one --config call per hook, none for non-hooks, failure names the hook.",
+        "level_note": "Trusted: the file system (tmpfs), /bin/sh. Runs as root, so permission bits are not enforced on execution.",
+        "rule": "enumeration of entry sets / (layout, failing hook, kind); non-trivial = nested path or more than one entry; distinct = distinct discovered set / loaded order",
+        "parts": [
+            part("c20a", "pkg/utils/file", "TestVerifC20a", ["zz_verif_c20_test.go"], shards={"quick": 8, "thorough": 16}),
+            part("c20b", "pkg/hook", "TestVerifC20b", ["zz_verif_c20_test.go"], shards={"quick": 8, "thorough": 8}),
+        ],
+    },
 }
